@@ -42,7 +42,13 @@ void harness(void)
 	c = verif_build_conn(s, QB_IPCS_CONNECTION_ESTABLISHED, 1, nd_max);
 	/* what the transport reports: -errno, 0, or a byte count that fits what was negotiated
 	 * (socket: recv_at_most never returns more than the buffer -- unit ipc.recv_at_most; shm: a chunk the client committed) */
+#ifdef V_CONSISTENT
 	ASSUME(nd_result >= -133 && nd_result <= (int64_t)nd_max);
+#else
+	/* overclaim: the transport may also report more than was negotiated (shm: the chunk's size word lives in
+	 * memory the client can write) */
+	ASSUME(nd_result >= -133 && nd_result <= ((int64_t)1 << 25));
+#endif
 	verif_req_result = nd_result;
 	verif_msgproc_rc = nd_msgproc_rc;
 #if V_SHM
@@ -61,7 +67,7 @@ void harness(void)
 	ASSUME(nd_result <= 0 || (nd_result >= (int64_t)sizeof(*hdr) && nd_size >= 0 && nd_size <= nd_result));
 #endif
 #ifdef V_OVERCLAIM
-	ASSUME(nd_result > 0 && (nd_result < (int64_t)sizeof(*hdr) || nd_size < 0 || nd_size > nd_result));
+	ASSUME(nd_result > 0 && (nd_result < (int64_t)sizeof(*hdr) || nd_size < 0 || nd_size > nd_result || nd_result > (int64_t)nd_max));
 #endif
 
 	int32_t rc = _process_request_(c, nd_timeout);
